@@ -246,6 +246,12 @@ def realtime_timing(ctx, nev_a=2, nev_b=1, njobs=1, max_mc=2, idle=True, window_
 
 
 # ====================================================================================== C14
+class _FactoryRestore:
+    """entry for ctx.patches that reinstalls the log record factory found at the start of the path"""
+    def __setattr__(self, attr, old):
+        logging.setLogRecordFactory(old)
+
+
 ENDINGS = ["exhausted_or_idle_stop", "stop_from_handler", "handler_error_stops", "external_cancel", "external_stop",
            "double_stop"]
 
@@ -258,14 +264,24 @@ def lifecycle(ctx, kind="backtesting", max_mc=3, nprod=2):
     dur = [0.0, 0.03, 5.0][ctx.choice("handler_duration", 3)]
     with_jobs = ctx.flag("with_scheduled_jobs")
     partial_callables = ctx.flag("handlers_and_jobs_are_partial_objects")
+    app_factory = ctx.flag("application_sets_its_own_log_record_factory_before_run")
     out = {}
     factory_before = logging.getLogRecordFactory()
+    ctx.patches.append((_FactoryRestore(), "factory", factory_before))     # whatever happens on this path
 
     async def body(loop):
         tr = Trace(loop)
         d = bs.backtesting_dispatcher(max_concurrent=mc) if kind == "backtesting" else \
             bs.realtime_dispatcher(max_concurrent=mc)
         d.on_error = lambda e: None
+        if app_factory:
+            # the application installs its own log record factory after creating the dispatcher and before run()
+            base_factory = logging.getLogRecordFactory()
+
+            def custom_factory(*a, **k):
+                return base_factory(*a, **k)
+            logging.setLogRecordFactory(custom_factory)
+            out["expected_factory"] = custom_factory
         if ending == "handler_error_stops":
             d.stop_on_handler_exceptions = True
         prods, srcs = [], []
@@ -437,7 +453,7 @@ def lifecycle(ctx, kind="backtesting", max_mc=3, nprod=2):
             ctx.prove(sorted(out["jobs_run"]) == [0, 1], "C14 a failing job does not prevent later jobs")
         ctx.cover("a full run with failing handler and job completed")
     # ---- logging behaves as before the run
-    ctx.prove(logging.getLogRecordFactory() is factory_before,
+    ctx.prove(logging.getLogRecordFactory() is out.get("expected_factory", factory_before),
               "C14 the process-wide log record factory is restored however the run ends",
               info=(kind, fail_phase, ending))
     try:
